@@ -286,7 +286,7 @@ def _build_history(ctx, rng, path, orphan):
     return t
 
 
-DAMAGES = ["delete", "empty", "garbage", "binary", "legacy-current", "legacy-missing", "dangling", "stale", "unicode-digit", "huge-digits", "whitespace"]
+DAMAGES = ["intact", "delete", "empty", "garbage", "binary", "legacy-current", "legacy-missing", "dangling", "stale", "unicode-digit", "huge-digits", "whitespace"]
 
 
 def _damage(path, kind, before):
@@ -294,6 +294,8 @@ def _damage(path, kind, before):
     store = reader.DirStore(path)
     files = reader.metadata_files(store)
     cur_v = before["version"]
+    if kind == "intact":
+        return True         # the pointer is FINE (only uncommitted leftovers lie around): it must simply be believed
     if kind == "delete":
         os.remove(hp)
     elif kind == "empty":
@@ -340,7 +342,7 @@ def _histories(ctx, rep):
     base = scratch_dir("c10-")
     try:
         n = ctx.budget(8, 120)
-        forced = [("delete", "open", "crashed"), ("stale", "open", None), ("delete", "open", "failed"), ("unicode-digit", "open", None),
+        forced = [("intact", "open", "crashed"), ("intact", "append", "crashed"), ("intact", "create", "failed"), ("delete", "open", "crashed"), ("stale", "open", None), ("delete", "open", "failed"), ("unicode-digit", "open", None),
                   ("delete", "append-damage-open", None), ("garbage", "append-damage-open", None), ("legacy-missing", "append-damage-open", None)]
         plan = [(0, k, o, w) for k, o, w in forced]
         for hi in range(n):
@@ -498,6 +500,8 @@ def _histories_s3(ctx, rep):
 
 
 def _classify(kind, with_orphan, what):
+    if kind == "intact":
+        return f"C10:intact-pointer-not-believed:{what}"
     if kind == "unicode-digit" and what == "raises":
         return "C10:hint-text-isdigit-not-int"
     if kind == "huge-digits" and what == "raises":
